@@ -74,7 +74,7 @@ def run(ctx):
                          timeout=1500, coverage=not q, workers=4 if q else 8)
         f_g1 = ex.submit(ctx.tlc_gen, "IPNS", "GenIPNSValidate.tla", "GenIPNSValidate.cfg", timeout=900)
         time.sleep(0.05)
-        f_g2 = ex.submit(ctx.tlc_gen, "IPNS", "GenIPNSValidate.tla", "GenIPNSValidateD2.cfg", timeout=1500)
+        f_g2 = ex.submit(ctx.tlc_gen, "IPNS", "GenIPNSValidate.tla", "GenIPNSValidateD2q.cfg" if q else "GenIPNSValidateD2.cfg", timeout=1500)
         f_b = ex.submit(ctx.go_build, PKG, HARNESS)
         binp = f_b.result()
         b1 = f_g1.result()
